@@ -203,6 +203,10 @@ type caseRun struct {
 	// closerace (closerace.go)
 	gate       *persistGate // holds the persister inside one Persist of its own job
 	forceImage bool         // every record keeps its crash image while set
+	live       []interface{}        // crashreopen (crashreopen.go): the recording Directory/Policy objects of the open writer
+	dead       map[interface{}]bool // … and those (and the writers) abandoned by a simulated crash: they record nothing any more
+	gen        int                  // incremented by a simulated crash
+	lastGrabX  uint64               // acknowledgements taken by the persister's latest grab
 	nblocked   int          // Batch calls that did not return within their bound (their goroutines pin a root: handles cannot balance)
 }
 
@@ -216,7 +220,7 @@ func installTrace() {
 			if c == nil {
 				return
 			}
-			c.trace(kind, snap, x)
+			c.traceFrom(w, kind, snap, x)
 		})
 	})
 }
@@ -377,6 +381,10 @@ func diff(a, b []uint64) []uint64 { // a \ b, order of a
 func (c *caseRun) trace(kind string, snap *index.Snapshot, x uint64) {
 	c.mu.Lock()
 	defer c.mu.Unlock()
+	c.traceLocked(kind, snap, x)
+}
+
+func (c *caseRun) traceLocked(kind string, snap *index.Snapshot, x uint64) {
 	switch kind {
 	case "root":
 		if snap == nil {
@@ -443,6 +451,7 @@ func (c *caseRun) trace(kind string, snap *index.Snapshot, x uint64) {
 		}
 	case "grab":
 		c.grabSegs = snapIDs(snap)
+		c.lastGrabX = x
 		c.jobDirFail = false
 		c.jobErrInjected = false
 		c.recordLocked(fmt.Sprintf("grab %d %d", snap.VerifEpoch(), x))
@@ -503,6 +512,9 @@ func (d *recDir) List(kind string) ([]uint64, error)       { return d.inner.List
 func (d *recDir) Stats() (uint64, uint64)                  { return d.inner.Stats() }
 func (d *recDir) Sync() error                              { return d.inner.Sync() }
 func (d *recDir) Load(kind string, id uint64) (*segment.Data, io.Closer, error) {
+	if d.c.isDead(d) {
+		return d.inner.Load(kind, id)
+	}
 	d.c.jitter()
 	data, cl, err := d.inner.Load(kind, id)
 	if err != nil {
@@ -537,12 +549,22 @@ func b2i(b bool) int {
 
 func (d *recDir) Persist(kind string, id uint64, w index.WriterTo, closeCh chan struct{}) error {
 	c := d.c
+	if c.isDead(d) {
+		return d.inner.Persist(kind, id, w, closeCh)
+	}
 	var buf bytes.Buffer
 	_, werr := w.WriteTo(&buf, closeCh)
 	content := buf.Bytes()
 	name := fileName(kind, id)
 	_, isMerge := w.(interface{ DocumentNumbers() [][]uint64 })
 	c.mu.Lock()
+	if c.deadLocked(d) {
+		c.mu.Unlock()
+		if werr != nil {
+			return werr
+		}
+		return d.inner.Persist(kind, id, bytesWriterTo(content), closeCh)
+	}
 	if c.mode.Recover {
 		if old, err := os.ReadFile(filepath.Join(c.dir, name)); err == nil {
 			c.prev[name] = old
@@ -576,6 +598,12 @@ func (d *recDir) Persist(kind string, id uint64, w index.WriterTo, closeCh chan 
 	c.mu.Unlock()
 	c.jitter()
 	c.gateWait(kind, isMerge)
+	if c.isDead(d) { // the "process" died while this Persist was in flight
+		if werr != nil {
+			return werr
+		}
+		return d.inner.Persist(kind, id, bytesWriterTo(content), closeCh)
+	}
 	err := werr
 	if err == nil {
 		err = d.inner.Persist(kind, id, bytesWriterTo(content), closeCh)
@@ -588,6 +616,10 @@ func (d *recDir) Persist(kind string, id uint64, w index.WriterTo, closeCh chan 
 	}
 	c.jitter()
 	c.mu.Lock()
+	if c.deadLocked(d) { // died while the file was in flight: nothing of this writer is recorded any more
+		c.mu.Unlock()
+		return err
+	}
 	delete(c.inflight, name)
 	if err == nil {
 		c.files[name] = onDisk
@@ -611,9 +643,15 @@ func (d *recDir) Persist(kind string, id uint64, w index.WriterTo, closeCh chan 
 
 func (d *recDir) Remove(kind string, id uint64) error {
 	c := d.c
+	if c.isDead(d) {
+		return d.inner.Remove(kind, id)
+	}
 	c.jitter()
 	c.mu.Lock()
 	defer c.mu.Unlock()
+	if c.deadLocked(d) {
+		return d.inner.Remove(kind, id)
+	}
 	err := d.inner.Remove(kind, id)
 	name := fileName(kind, id)
 	if err == nil {
@@ -645,7 +683,16 @@ type recPolicy struct {
 
 func (p *recPolicy) Commit(s *index.Snapshot) {
 	c := p.c
+	if c.isDead(p) {
+		p.inner.Commit(s)
+		return
+	}
 	c.mu.Lock()
+	if c.deadLocked(p) {
+		c.mu.Unlock()
+		p.inner.Commit(s)
+		return
+	}
 	if c.opening {
 		c.obsCommits = append(c.obsCommits, s.VerifEpoch())
 	} else {
@@ -666,11 +713,15 @@ func (c *caseRun) config() index.Config {
 		if c.wrapDir != nil {
 			inner = c.wrapDir(inner)
 		}
-		return &recDir{inner: inner, c: c}
+		rd := &recDir{inner: inner, c: c}
+		c.addLive(rd)
+		return rd
 	}
 	n := c.n
 	cfg.DeletionPolicyFunc = func() index.DeletionPolicy {
-		return &recPolicy{inner: index.NewKeepNLatestDeletionPolicy(n), c: c}
+		rp := &recPolicy{inner: index.NewKeepNLatestDeletionPolicy(n), c: c}
+		c.addLive(rp)
+		return rp
 	}
 	cfg.UnsafeBatch = c.unsafe
 	if c.merge > 0 {
@@ -1199,6 +1250,12 @@ func (h *H) Gen(r *hlib.Rand, tier string, scale int, emit func(string)) {
 			ins("ropen", 1)
 			ins("second", 1)
 		}
+		{
+			// crash while a snapshot Persist is in flight (the newest snapshot file torn), reopen on the crash image
+			v := []string{"cut:0", "cut:1", "cut:half", "cut:crc", "cut:last", "zero"}[r.Intn(6)]
+			ins("crashreopen "+v+" "+mk(), 3)
+			ops = append(ops, "b "+mk())
+		}
 		if !unsafe {
 			// Close() while one batch is inside the persister and 1–3 more are queued behind it
 			k := r.Range(2, 4)
@@ -1222,7 +1279,7 @@ func (h *H) Gen(r *hlib.Rand, tier string, scale int, emit func(string)) {
 				openRd = nil
 				emit(op)
 			default:
-				if strings.HasPrefix(op, "closerace ") {
+				if strings.HasPrefix(op, "closerace ") || strings.HasPrefix(op, "crashreopen ") {
 					openRd = nil
 				}
 				emit(op)
@@ -1355,6 +1412,12 @@ func (h *H) Exec(line string, out func(string, string), st *hlib.Stats, work str
 		_ = after
 		c.recordLocked("second " + res)
 		c.mu.Unlock()
+	case "crashreopen":
+		// crashreopen <variant> spec : crash with the NEWEST snapshot file torn, reopen a writer on the crash image
+		if len(f) > 2 {
+			st.Count("op:crashreopen")
+			c.crashReopen(f[1], parseSpec(f[2]), st)
+		}
 	case "closerace":
 		// closerace seg|snp spec spec [spec…]
 		kind := index.ItemKindSegment
